@@ -665,6 +665,51 @@ def reportsInvalidArg (valid : Str) (x : Int) : Option Bool :=
   | .ok b => some (!b)
   | .err => none
 
+/-- `Token::getInvalidValue` finds the Known value refused by Library::isIntArgValid -/
+def knownRefused (valid : Str) (known : Option Int) : Bool :=
+  match known with
+  | none => false
+  | some x => isIntArgValid valid x == .ok false
+
+/-- what CheckFunctions::invalidFunctionUsage reports for one call argument -/
+structure ArgReport where
+  /-- invalidFunctionArg "The value is x but the valid values are ..." (from Token::getInvalidValue) -/
+  invalidValue : Bool
+  /-- invalidFunctionArgBool "A non-boolean value is required." -/
+  notBool : Bool
+  /-- invalidFunctionArg "The value is 0 or 1 (boolean) but the valid values are ..." -/
+  boolRange : Bool
+  deriving DecidableEq, Repr
+
+/-- The body of the argument loop of CheckFunctions::invalidFunctionUsage for an argument of a matching library call:
+`valid` = the `<valid>` text of its declaration ("" when there is none), `notbool` = `<not-bool/>` declared,
+`isBool` = `astIsBool(argtok)`, `known` = the Known integer value of the argument if value flow has one.
+The `<valid>` check and the boolean block are two separate `if` statements:
+```
+if (invalidValue) invalidFunctionArgError(.., invalidValue, ..);
+if (astIsBool(argtok)) {
+    if (isboolargbad) invalidFunctionArgBoolError(..);
+    else if (!isIntArgValid(.., 0)) invalidFunctionArgError(.., nullptr, ..);
+    else if (!isIntArgValid(.., 1)) invalidFunctionArgError(.., nullptr, ..);
+}
+```
+`none` = an InternalError left the function. -/
+def argDecision (valid : Str) (notbool : Bool) (isBool : Bool) (known : Option Int) : Option ArgReport :=
+  let a : Option Bool :=
+    match known with
+    | none => some false
+    | some x => (match isIntArgValid valid x with | .ok b => some (!b) | .err => none)
+  let r : Option Bool :=
+    if isBool && !notbool then
+      match isIntArgValid valid 0 with
+      | .err => none
+      | .ok false => some true
+      | .ok true => (match isIntArgValid valid 1 with | .err => none | .ok b => some (!b))
+    else some false
+  match a, r with
+  | some a, some r => some { invalidValue := a, notBool := isBool && notbool, boolRange := r }
+  | _, _ => none
+
 /-- what `Library::load` + isIntArgValid do with an `<arg><valid>` text: rejected at load time, or the verdict -/
 inductive Loaded | rejected | verdict (r : Res)
   deriving DecidableEq, Repr
